@@ -118,6 +118,7 @@ type grule struct {
 	srcNets, dstNets, notSrcNets, notDstNets []cidr
 	srcPorts, dstPorts, notDstPorts          []prange
 	srcNamed, dstNamed, notDstNamed          []int
+	notSrcNamed                              []int
 	srcSets, dstSets, notSrcSets, notDstSets []int
 	dstIPPortSets                            []int
 	icmpType                                 int // -1 none
@@ -168,6 +169,7 @@ func (g *grule) toProto() *proto.Rule {
 	}
 	r.SrcNamedPortIpSetIds, r.DstNamedPortIpSetIds = ids(g.srcNamed), ids(g.dstNamed)
 	r.NotDstNamedPortIpSetIds = ids(g.notDstNamed)
+	r.NotSrcNamedPortIpSetIds = ids(g.notSrcNamed)
 	r.SrcIpSetIds, r.DstIpSetIds, r.NotSrcIpSetIds, r.NotDstIpSetIds = ids(g.srcSets), ids(g.dstSets), ids(g.notSrcSets), ids(g.notDstSets)
 	r.DstIpPortSetIds = ids(g.dstIPPortSets)
 	if g.icmpType >= 0 {
@@ -225,11 +227,11 @@ func (g *grule) coq() string {
 	if g.icmpType >= 0 {
 		icmp = fmt.Sprintf("(Some (IcmpType %d))", g.icmpType)
 	}
-	return fmt.Sprintf("(R %s %s %s %s %s %s %s %s %s %s %s %s %s %s %s nP %s %s oI %s %s nN %s)",
+	return fmt.Sprintf("(R %s %s %s %s %s %s %s %s %s %s %s %s %s %s %s nP %s %s oI %s %s %s %s)",
 		act, iv, coqOptN(g.proto), cs(g.srcNets), ps(g.srcPorts), ns(g.srcNamed),
 		cs(g.dstNets), ps(g.dstPorts), ns(g.dstNamed), icmp, ns(g.srcSets), ns(g.dstSets),
 		ns(g.dstIPPortSets), coqOptN(g.notProto), cs(g.notSrcNets), cs(g.notDstNets),
-		ps(g.notDstPorts), ns(g.notSrcSets), ns(g.notDstSets), ns(g.notDstNamed))
+		ps(g.notDstPorts), ns(g.notSrcSets), ns(g.notDstSets), ns(g.notSrcNamed), ns(g.notDstNamed))
 }
 
 // ------------------------------------------------------------------ the small universe rules and packets live in
@@ -450,6 +452,9 @@ func (g *grule) matches(p packet, ver int, w *setWorld) bool {
 	if inPorts(g.notDstPorts, p.dport) || anyNamed(g.notDstNamed, p.dst, p.dport) {
 		return false
 	}
+	if anyNamed(g.notSrcNamed, p.src, p.sport) {
+		return false
+	}
 	for _, id := range g.srcSets {
 		if !w.hasIP(id, p.src) {
 			return false
@@ -612,6 +617,12 @@ func genRule(r *rng, u *universe, o ruleOpts) *grule {
 			}
 			if r.chance(8) && (g.proto == 6 || g.proto == 17) {
 				g.notDstNamed = []int{nNetSets + 1 + r.intn(nPortSets)}
+			}
+			if r.chance(10) && (g.proto == 6 || g.proto == 17) && len(g.srcPorts) == 0 {
+				g.srcNamed = []int{nNetSets + 1 + r.intn(nPortSets)}
+			}
+			if r.chance(6) && (g.proto == 6 || g.proto == 17) {
+				g.notSrcNamed = []int{nNetSets + 1 + r.intn(nPortSets)}
 			}
 		}
 		if r.chance(8) && len(g.dstPorts) == 0 && len(g.notDstPorts) == 0 && len(g.dstNamed) == 0 {
@@ -831,6 +842,113 @@ func genEndpoint(r *rng, u *universe, o *caseOpts) ([]*gtier, []*gprofile) {
 		profs = append(profs, pf)
 	}
 	return tiers, profs
+}
+
+// injectLegs puts IP+port sets on BOTH legs of one evaluation: a source-side named-port lookup and a destination-side
+// named-port / service-set lookup, in one rule or in consecutive rules / policy then profile, with set members chosen so
+// that the source key "<src ip>,<proto>:<sport>" and the destination key "<dst ip>,<proto>:<dport>" give different answers
+// (same port on both sides, different addresses; each address in one set only), followed by a rule that decides the
+// other way.  Returns probes aimed at the second lookup.
+func injectLegs(r *rng, u *universe, w *setWorld, tiers []*gtier, profs []*gprofile) ([]*gtier, []*gprofile, []packet, string) {
+	pr := []int{6, 17}[r.intn(2)]
+	port := u.ports[r.intn(4)]
+	a1, a2 := u.addrs[r.intn(len(u.addrs))], u.addrs[r.intn(len(u.addrs))]
+	for a2.Cmp(a1) == 0 {
+		a2 = u.addrs[r.intn(len(u.addrs))]
+	}
+	sa, sb := nNetSets+1, nNetSets+2
+	w.ports[sa] = append([]pmember{{addr: a1, proto: pr, port: port}}, w.ports[sa]...)
+	w.ports[sb] = append([]pmember{{addr: a2, proto: pr, port: port}}, w.ports[sb]...)
+	// keep the two keys apart: a1's key only in sa, a2's key only in sb
+	strip := func(id int, a *big.Int) {
+		var out []pmember
+		for _, m := range w.ports[id] {
+			if !(m.addr.Cmp(a) == 0 && m.proto == pr && m.port == port) {
+				out = append(out, m)
+			}
+		}
+		w.ports[id] = out
+	}
+	strip(sa, a2)
+	strip(sb, a1)
+	mk := func(a string) *grule { return &grule{action: a, proto: pr, notProto: -1, icmpType: -1} }
+	act := []string{"allow", "deny"}[r.intn(2)]
+	other := map[string]string{"allow": "deny", "deny": "allow"}[act]
+	var first, second []*grule // rules evaluated first / later (same list when `split` is false)
+	split := false
+	shape := ""
+	switch r.intn(8) {
+	case 0:
+		g := mk(act)
+		g.srcNamed, g.dstNamed = []int{sa}, []int{sb}
+		first, shape = []*grule{g}, "one-rule:src-named+dst-named"
+	case 1:
+		g := mk(act)
+		g.srcNamed, g.dstIPPortSets = []int{sa}, []int{sb}
+		first, shape = []*grule{g}, "one-rule:src-named+dst-service-set"
+	case 2:
+		g := mk(act)
+		g.srcNamed, g.notDstNamed = []int{sa}, []int{sa}
+		first, shape = []*grule{g}, "one-rule:src-named+not-dst-named"
+	case 3:
+		g := mk(act)
+		g.notSrcNamed, g.dstNamed = []int{sb}, []int{sb}
+		first, shape = []*grule{g}, "one-rule:not-src-named+dst-named"
+	case 4:
+		g1, g2 := mk("log"), mk(act)
+		g1.srcNamed, g2.dstNamed = []int{sa}, []int{sb}
+		first, shape = []*grule{g1, g2}, "two-rules:src-named-then-dst-named"
+	case 5:
+		g1, g2 := mk("log"), mk(act)
+		g1.dstNamed, g2.srcNamed = []int{sb}, []int{sa}
+		first, shape = []*grule{g1, g2}, "two-rules:dst-named-then-src-named"
+	case 6:
+		g1, g2 := mk("pass"), mk(act)
+		g1.srcNamed, g2.dstIPPortSets = []int{sa}, []int{sb}
+		first, second, split, shape = []*grule{g1}, []*grule{g2}, true, "policy-then-profile:src-named-then-dst-service-set"
+	default:
+		g1, g2 := mk("log"), mk(act)
+		g1.notSrcNamed, g2.notDstNamed = []int{sb}, []int{sa}
+		first, shape = []*grule{g1, g2}, "two-rules:not-src-named-then-not-dst-named"
+	}
+	fallback := mk(other)
+	pol := &gpolicy{id: types.PolicyID{Name: "legs.pol", Kind: "GlobalNetworkPolicy"}}
+	if split {
+		pol.in, pol.out = first, first
+		if len(profs) == 0 {
+			profs = []*gprofile{{name: "prof0"}}
+		}
+		pf := profs[0]
+		pf.in = append(append([]*grule{}, append(second, fallback)...), pf.in...)
+		pf.out = append(append([]*grule{}, append(second, fallback)...), pf.out...)
+		// the tiers behind the injected policy must let the packet through to the profiles now and then
+		for _, t := range tiers {
+			if r.chance(60) {
+				t.defaultAction = "Pass"
+			}
+		}
+	} else {
+		rs := append(append([]*grule{}, first...), fallback)
+		pol.in, pol.out = rs, rs
+	}
+	lt := &gtier{name: "tierL", defaultAction: "Pass", groups: []*ggroup{{pols: []*gpolicy{pol}}}}
+	tiers = append([]*gtier{lt}, tiers...)
+	// probes: same port on both sides; the two addresses in every arrangement
+	var pk []packet
+	for _, ad := range [][2]*big.Int{{a1, a2}, {a2, a1}, {a1, a1}, {a2, a2}} {
+		pk = append(pk, packet{proto: pr, src: ad[0], dst: ad[1], sport: port, dport: port})
+	}
+	pk = append(pk, packet{proto: pr, src: a1, dst: a2, sport: port, dport: u.ports[(r.intn(3)+1+indexOf(u.ports, port))%4]})
+	return tiers, profs, pk, shape
+}
+
+func indexOf(xs []int, x int) int {
+	for i, y := range xs {
+		if y == x {
+			return i
+		}
+	}
+	return 0
 }
 
 func protoRules(gs []*grule) []*proto.Rule {
@@ -1265,7 +1383,7 @@ func probeChecker() (v kvariant, err error) {
 
 // ------------------------------------------------------------------ one case
 
-func buildCase(r *rng, o *caseOpts, u *universe, tiers []*gtier, profs []*gprofile, w *setWorld, forced []packet) (*line, error) {
+func buildCase(r *rng, o *caseOpts, u *universe, tiers []*gtier, profs []*gprofile, w *setWorld, forced []packet, extra ...packet) (*line, error) {
 	ver := o.ver
 	v6 := ver == 6
 	st := buildProtoState(tiers, profs)
@@ -1424,6 +1542,9 @@ func buildCase(r *rng, o *caseOpts, u *universe, tiers []*gtier, profs []*gprofi
 			addP(p)
 		}
 	} else {
+		for _, p := range extra {
+			addP(p)
+		}
 		order := make([]int, len(allRules))
 		for i := range order {
 			order[i] = i
@@ -1541,8 +1662,11 @@ func buildCase(r *rng, o *caseOpts, u *universe, tiers []*gtier, profs []*gprofi
 		if g.ipver != 0 {
 			tags = append(tags, "rule-has-ip-version")
 		}
-		if len(g.dstNamed)+len(g.notDstNamed) > 0 {
+		if len(g.dstNamed)+len(g.notDstNamed)+len(g.srcNamed)+len(g.notSrcNamed) > 0 {
 			tags = append(tags, "rule-has-named-port")
+		}
+		if len(g.srcNamed)+len(g.notSrcNamed) > 0 && len(g.dstNamed)+len(g.notDstNamed)+len(g.dstIPPortSets) > 0 {
+			tags = append(tags, "rule-has-port-sets-on-both-legs")
 		}
 	}
 	if o.feat != "" {
@@ -1673,9 +1797,17 @@ func main() {
 			w.missing[1+r.intn(nNetSets+nPortSets)] = true
 		}
 		tiers, profs := genEndpoint(r, u, o)
-		c, err := buildCase(r, o, u, tiers, profs, w, nil)
+		var extra []packet
+		legs := ""
+		if (kv.named && o.feat == "" && r.chance(40)) || (o.feat == "named" && r.chance(60)) {
+			tiers, profs, extra, legs = injectLegs(r, u, w, tiers, profs)
+		}
+		c, err := buildCase(r, o, u, tiers, profs, w, nil, extra...)
 		if err != nil {
 			fail(err)
+		}
+		if legs != "" {
+			c.Tags = append(c.Tags, "both-legs:"+legs)
 		}
 		_ = enc.Encode(c)
 	}
